@@ -28,7 +28,14 @@ for name in names:
     try:
         r = subprocess.run(f"git apply {d}/patch.diff", shell=True, cwd=wt, capture_output=True, text=True)
         if r.returncode != 0:
-            matrix[name] = {"error": "patch does not apply to HEAD"}
+            prev = matrix.get(name) if isinstance(matrix.get(name), dict) and "error" not in matrix.get(name, {}) else None
+            if prev:
+                prev["stale"] = "patch no longer applies to /repo HEAD (later repairs changed its context); result of the last run at the HEAD it was written for"
+                matrix[name] = prev
+                meta["stale"] = prev["stale"]
+                json.dump(meta, open(f"{d}/meta.json", "w"), indent=1)
+            else:
+                matrix[name] = {"error": "patch does not apply to HEAD"}
             print(name, "PATCH DOES NOT APPLY"); continue
         res = {}
         for i in ids:
@@ -36,6 +43,7 @@ for name in names:
             env = dict(os.environ, VERIF_REPO=wt, VERIF_OUT=out)
             r = subprocess.run([f"{VERIF}/check", i, "--tier", TIER], capture_output=True, text=True, env=env, cwd=VERIF)
             nv = sum(1 for l in r.stdout.splitlines() if l.startswith("VIOLATION"))
+            res.pop("stale", None)
             res[i] = {"exit": r.returncode, "violation_lines": nv, "wall_s": round(time.time() - t0, 1)}
             print(name, i, res[i], flush=True)
         det = [i for i, v in res.items() if v["exit"] == 1 and v["violation_lines"] > 0]
